@@ -130,8 +130,15 @@ func (c *Compactor) Compact() (*CompactionResult, error) {
 	}
 	reader.Close()
 
-	// Create temp file for new data (always V3 format with name in header area)
+	// Create temp file for new data (always V3 format with name in header area).
+	// A leftover temp from a previously interrupted compaction must be removed first:
+	// NewFileWriterWithName opens an existing file for appending, which would carry the
+	// stale entries (and the stale header/name) into the compacted file.
 	tempPath := c.filePath + ".compact"
+	if err := os.Remove(tempPath); err != nil && !os.IsNotExist(err) {
+		result.Error = err
+		return result, err
+	}
 	writer, err := NewFileWriterWithName(tempPath, c.maxBlockSize, swampName)
 	if err != nil {
 		result.Error = err
